@@ -194,6 +194,37 @@ def _upvar_fields(c, cpv, op):
     return out
 
 
+def import_words_sync(ck, byk, rule):
+    """Linter::import_words: the words go into self.user_dictionary and, guarded at most by 'the
+    dictionary grew', synchronize_lint_dict rebuilds the merged dictionary and the LintGroup (also an
+    instance of R-C05-rebuild: a long-lived linter answers like a fresh one over the same words)."""
+    f = wasm_fn(ck, byk, rule, "Linter::import_words")
+    if f is not None:
+        cfg = Cfg(f)
+        pv = Prov(f)
+        ext = one(f, lambda t: inst_of(t).endswith("::extend_words"))
+        syn = one(f, lambda t: inst_of(t).endswith("::synchronize_lint_dict"))
+        ok = bool(ext and syn) and cfg.dominates(ext[0], syn[0]) and "user_dictionary" in arg_fields(pv, ext[1]["args"][0])
+        detail = "extend_words on self.user_dictionary then synchronize_lint_dict: %s" % ok
+        if ok:
+            # only guard: a comparison of word_count() values
+            guards = []
+            for bi, b in enumerate(f.blocks):
+                t = b["t"]
+                if t["k"] == "switch" and cfg.dominates(bi, syn[0]) and cfg.dominates(ext[0], bi):
+                    guards.append(bi)
+            good = True
+            for g in guards:
+                d = f.blocks[g]["t"]["discr"]
+                org = pv.trace_operand(d)
+                cmp_ok = any(o[0] == "bin" and o[1] in ("Gt", "Lt", "Ne", "Ge", "Le") for o in org)
+                wc = [o for o in arg_roots(f, pv, d) if o[0] == "call" and last(norm(o[3] or o[2] or "")) == "word_count"]
+                good = good and cmp_ok and len(wc) >= 1
+            ok = good and len(guards) <= 1
+            detail += "; guards between them: %d, each a comparison of word_count() values: %s" % (len(guards), good)
+        ck.decide(rule, "Linter::import_words", ok, f.span, detail)
+
+
 def _samedoc(ck, p, byk):
     rule = "R-C16-samedoc"
     for name in ("Linter::ignore_lint", "Linter::apply_suggestion"):
@@ -242,31 +273,7 @@ def _samedoc(ck, p, byk):
         asg = blocks_assigning_field(f, "ignored_lints")
         ok = len(asg) == 1 and asg[0][2]["rv"]["k"] == "use" and any(o[0] == "call" and last(norm(o[3] or "")) in ("new", "default") for o in flatten(pv.trace_operand(asg[0][2]["rv"]["op"])))
         ck.decide(rule, "Linter::clear_ignored_lints", ok, f.span, "self.ignored_lints = IgnoredLints::new()")
-    f = wasm_fn(ck, byk, rule, "Linter::import_words")
-    if f is not None:
-        cfg = Cfg(f)
-        pv = Prov(f)
-        ext = one(f, lambda t: inst_of(t).endswith("::extend_words"))
-        syn = one(f, lambda t: inst_of(t).endswith("::synchronize_lint_dict"))
-        ok = bool(ext and syn) and cfg.dominates(ext[0], syn[0]) and "user_dictionary" in arg_fields(pv, ext[1]["args"][0])
-        detail = "extend_words on self.user_dictionary then synchronize_lint_dict: %s" % ok
-        if ok:
-            # only guard: a comparison of word_count() values
-            guards = []
-            for bi, b in enumerate(f.blocks):
-                t = b["t"]
-                if t["k"] == "switch" and cfg.dominates(bi, syn[0]) and cfg.dominates(ext[0], bi):
-                    guards.append(bi)
-            good = True
-            for g in guards:
-                d = f.blocks[g]["t"]["discr"]
-                org = pv.trace_operand(d)
-                cmp_ok = any(o[0] == "bin" and o[1] in ("Gt", "Lt", "Ne", "Ge", "Le") for o in org)
-                wc = [o for o in arg_roots(f, pv, d) if o[0] == "call" and last(norm(o[3] or o[2] or "")) == "word_count"]
-                good = good and cmp_ok and len(wc) >= 1
-            ok = good and len(guards) <= 1
-            detail += "; guards between them: %d, each a comparison of word_count() values: %s" % (len(guards), good)
-        ck.decide(rule, "Linter::import_words", ok, f.span, detail)
+    import_words_sync(ck, byk, rule)
     f = wasm_fn(ck, byk, rule, "Linter::synchronize_lint_dict")
     if f is not None:
         cfg = Cfg(f)
